@@ -66,6 +66,8 @@ def split(s, delimiters):
             elif c == '"':
                 bracket_stack.append(close_bracket)
                 close_bracket = '"'
+            elif c == '}' and close_bracket == '':
+                raise ValueError('Unmatched } in %s' % s)
             current.append(c)
     if close_bracket != '':
         raise ValueError('Missing %s in %s' % (close_bracket, s))
